@@ -183,6 +183,39 @@ theorem C15_host_header (idna : Str → Option Str) (extra : PoolKey.Ctx) (u : U
     rw [hostText_eq, contains58_rstripDot]
     simp [h58]
 
+/-- the same, read off the socket address: when the pool host does not start with `[` (the hosts
+`parse_url` returns: a bracketed literal has lost its brackets, nothing else starts with one), the
+`Host` header is literally the dialled name without trailing dots (in brackets and without zone id if
+it contains `:`) and the dialled port (unless it is the scheme default) -/
+theorem C15_host_header_names_dial_address (idna : Str → Option Str) (extra : PoolKey.Ctx) (u : Url.Url)
+    (r : Route) (s hst : Str) (hs : u.scheme = some s) (hsch : s = http ∨ s = https) (hh : u.host = some hst)
+    (hb : ∀ h', Url.normalizeHost idna (some hst) (some s) = .ok (some h') → (unbracket h').head? ≠ some 91)
+    (h : routeWith idna none extra u = .ok r) :
+    (58 ∉ r.dialHost → r.hostHeader = [rstripDot r.dialHost ++
+        (if r.dialPort = schemeDefault s then [] else 58 :: Wire.toDec r.dialPort)]) ∧
+    (58 ∈ r.dialHost → r.hostHeader = [91 :: (rstripDot r.dialHost).takeWhile (· != 37) ++ [93] ++
+        (if r.dialPort = schemeDefault s then [] else 58 :: Wire.toDec r.dialPort)]) := by
+  obtain ⟨h', D, hn, rfl, hdh, hhh, h1, h2⟩ := C15_host_header idna extra u r s hst hs hsch hh h
+  have hD : r.dialHost = unbracket h' := by
+    rw [hdh]
+    unfold dialName
+    rw [if_neg (hb h' hn)]
+  rw [hD]
+  refine ⟨fun h58 => ?_, fun h58 => ?_⟩
+  · rw [hhh, h1 h58]
+  · rw [hhh, h2 h58]
+
+-- non-vacuity of `hb`: "[fe80::1%eth0]" re-normalises to itself, and "fe80::1%eth0" starts with no bracket
+example : ∀ h', Url.normalizeHost (fun _ => none) (some (lit "[fe80::1%eth0]")) (some http) = .ok (some h') →
+    (unbracket h').head? ≠ some 91 := by
+  intro h' e
+  have : Url.normalizeHost (fun _ => none) (some (lit "[fe80::1%eth0]")) (some http) =
+      .ok (some (lit "[fe80::1%eth0]")) := by decide +kernel
+  rw [this] at e
+  simp only [Except.ok.injEq, Option.some.injEq] at e
+  subst e
+  decide
+
 -- non-vacuity: trailing dot dropped, default port elided / odd port kept, IPv6 bracketed without zone
 example : (send1 none "https://Example.COM.:443/").toOption.map (fun r => (r.dialHost, r.hostHeader)) =
     some (lit "example.com.", [lit "example.com"]) := by decide +kernel
